@@ -389,6 +389,18 @@ class TermBuilder:
             if target.id == name:
                 return self.term(value_expr, d)
             return None
+        if isinstance(target, (ast.Tuple, ast.List)) and any(isinstance(el, ast.Starred) for el in target.elts):
+            # a, *rest = value   (star in last position only)
+            n = len(target.elts)
+            star = [k for k, el in enumerate(target.elts) if isinstance(el, ast.Starred)]
+            if len(star) == 1 and star[0] == n - 1:
+                v = self.term(value_expr, d)
+                for k, el in enumerate(target.elts):
+                    if isinstance(el, ast.Name) and el.id == name:
+                        return tm.index(v, (tm.const(k),), self.ranks)
+                    if isinstance(el, ast.Starred) and isinstance(el.value, ast.Name) and el.value.id == name:
+                        return Idx(v, (Slc(tm.const(k), None, None),))
+            return Sym(f"{name}@{d.id}")
         if isinstance(target, (ast.Tuple, ast.List)):
             for k, el in enumerate(target.elts):
                 if name in _names(el):
@@ -933,6 +945,7 @@ class TermBuilder:
                     return self._inline(c.func, args, kw, at)
                 except Opaque:
                     pass
+            args, kw = self._positional(c.func, args, kw)
             return App(c.func.qualname, args, kw)
         if c.kind == "method_internal" and c.func is not None:
             recv = self.term(c.receiver, at)
@@ -945,6 +958,7 @@ class TermBuilder:
                     return self._inline(c.func, allargs, kw, at)
                 except Opaque:
                     pass
+            allargs, kw = self._positional(c.func, allargs, kw)
             return App(c.func.qualname, allargs, kw)
         if c.kind == "ctor":
             return App(c.cls.qualname, args, kw)
@@ -1010,6 +1024,20 @@ class TermBuilder:
             return None
         return out
 
+    @staticmethod
+    def _positional(f: FuncInfo, args: List[T], kw: Dict[str, T]):
+        """Canonical argument form of a call to a package function: keywords that name the next positional parameters are
+        moved into position (f(a, y=c, x=b) and f(a, b, c) denote the same application)."""
+        if not kw:
+            return args, kw
+        a = f.node.args
+        pos = [x.arg for x in a.posonlyargs + a.args]
+        args = list(args)
+        kw = dict(kw)
+        while len(args) < len(pos) and pos[len(args)] in kw:
+            args.append(kw.pop(pos[len(args)]))
+        return args, kw
+
     def _call_with(self, c, args: List[T], kw: Dict[str, T], at) -> T:
         """Finish a call whose argument terms are already known (used after starred expansion)."""
         if c.kind == "internal" and c.func is not None:
@@ -1018,6 +1046,7 @@ class TermBuilder:
                     return self._inline(c.func, args, kw, at)
                 except Opaque:
                     pass
+            args, kw = self._positional(c.func, args, kw)
             return App(c.func.qualname, args, kw)
         if c.kind == "method_internal" and c.func is not None:
             recv = self.term(c.receiver, at)
